@@ -258,9 +258,9 @@ Print Assumptions C08_exec_total.
    (C08_refines_tilde_partial), r (C08_refines_replace_partial), p P of one-line character-wise text and of
    line-wise text (C08_refines_put_chars_partial, C08_refines_put_lines_partial), i a with plain typed text
    (C08_refines_insert_plain_partial), Y (C08_refines_Y_partial), s C with plain typed text
-   (C08_refines_s_C_plain_partial), S (C08_refines_S_plain_partial), o O (C08_refines_open_plain_partial), A (C08_refines_A_plain_partial), >> << (C08_refines_shift_partial).  The references are the small functions ref_span, ref_line_delete,
+   (C08_refines_s_C_plain_partial), S (C08_refines_S_plain_partial), o O (C08_refines_open_plain_partial), A (C08_refines_A_plain_partial), J of two lines (C08_refines_J_partial), >> << (C08_refines_shift_partial).  The references are the small functions ref_span, ref_line_delete,
    ref_tilde, ref_replace, ref_put_off, ref_put_row, ref_ins_off of ViDefs.v on the BODY of the cursor line.
-   MISSING: J and d c y g~ gu gU with arbitrary motions (< > with a motion other than the doubled key), I, inserts containing editing keys, newlines or only
+   MISSING: J with a count above 2 and d c y g~ gu gU with arbitrary motions (< > with a motion other than the doubled key), I, inserts containing editing keys, newlines or only
    blanks (autoindent), puts of character-wise text containing a newline, and the composition over whole
    programs; the sticky column and the window top are not part of the statements.  Those commands are mirrored
    only and tied to the independent reference Ref8 and to the code by the correspondence run. *)
@@ -417,6 +417,20 @@ Theorem C08_refines_A_plain_partial : forall rows e typed e1 body,
   s_regs e1 = s_regs e /\ v_row (s_vs e1) = v_row s /\ v_off (s_vs e1) = slen body + slen typed - 1.
 Proof. exact refines_A_plain. Qed.
 Print Assumptions C08_refines_A_plain_partial.
+(* J (count 0, 1 or 2): the cursor line and the next one become body1 ++ spaces ++ (body2 without its leading blanks),
+   with no space if body1 is empty, ends in a space, or the rest starts with ')', two spaces after a '.', else one
+   (join_spaces of ViDefs.v, a function of the two texts); the cursor goes to the joint *)
+Theorem C08_refines_J_partial : forall rows e cnt e1 body1 body2,
+  let b := s_buf e in let s := s_vs e in
+  buf_wf b -> cursor_ok b (v_row s) (v_off s) ->
+  getl b (v_row s) = Some (body1 ++ [nlc]) -> getl b (v_row s + 1) = Some (body2 ++ [nlc]) -> 0 <= cnt <= 2 ->
+  exec1 rows (CJoin cnt) e = Some e1 ->
+  let rest := snd (span_blank body2) in
+  let nb := body1 ++ repeat [32%N] (join_spaces body1 (rest ++ [nlc])) ++ rest in
+  s_buf e1 = set_row b (v_row s) [nb ++ [nlc]] 2 /\ s_regs e1 = s_regs e /\
+  v_row (s_vs e1) = v_row s /\ v_off (s_vs e1) = ren_noeol (Some (nb ++ [nlc])) (slen body1).
+Proof. exact refines_J. Qed.
+Print Assumptions C08_refines_J_partial.
 Local Open Scope N_scope.
 
 Example C08_nonvacuous :
